@@ -54,7 +54,7 @@ Inductive op :=
 Inductive out :=
 | OutUnit
 | OutBool (b : bool)
-| OutGet (r : option entry)     (* value and Expire as GetWithExpire shows them (0 = zero time) *)
+| OutGet (r : option entry)     (* value and expiry as GetWithExpire shows them (0 = zero time: Expire <= 0) *)
 | OutCount (n : nat)
 | OutExport (l : list (Z * entry)).      (* decoded JSON object, sorted by key *)
 
@@ -64,8 +64,20 @@ Definition eff_ttl (defttl ttl : Z) : option Z :=
   else if ttl =? 0 then (if 0 <? defttl then Some defttl else None)
   else if 0 <? ttl then Some ttl else None.
 
+(* int64 arithmetic: time.Now().Add(d).UnixNano() is computed in int64 and WRAPS when now + d exceeds
+   MaxInt64 (observed on Go 1.23: Time.Add does not saturate for such d, UnixNano multiplies and adds in int64):
+   a TTL above about 235 years gives a NEGATIVE Expire. The code then treats the entry as never expiring
+   (isVisit = Expire > 0 is false) although set() still puts the negative score into the index (Expire != 0),
+   where the sweep range [0, now] never reaches it. *)
+Definition M63 : Z := 2 ^ 63.
+Definition M64 : Z := 2 ^ 64.
+Definition wrap64 (z : Z) : Z := (z + M63) mod M64 - M63.
+
 Definition new_expire (defttl now ttl : Z) : Z :=
-  match eff_ttl defttl ttl with Some x => now + x | None => 0 end.
+  match eff_ttl defttl ttl with Some x => wrap64 (now + x) | None => 0 end.
+
+(* what get shows as the expiry: time.Unix(0, Expire) when isVisit, else the zero time *)
+Definition shown (d : Z) : Z := if 0 <? d then d else 0.
 
 (* Iterator.expired: isVisit() && now > Expire *)
 Definition expired (now d : Z) : bool := (0 <? d) && (d <? now).
@@ -131,7 +143,7 @@ Definition m_setifabsent (s : state) (k : Z) (e : entry) : state * bool :=
 Definition m_get_op (s : state) (now k : Z) : state * option entry :=
   match m_get (member s) k with
   | None => (s, None)
-  | Some (v, d) => if expired now d then (m_delete s k, None) else (s, Some (v, d))
+  | Some (v, d) => if expired now d then (m_delete s k, None) else (s, Some (v, shown d))
   end.
 
 (* replace reads the clock twice (newIterator before the lock, expired() under it); the calls of one
@@ -191,3 +203,12 @@ Definition f64r (g x : Z) : Z :=
   if 2 * r <? g then q * g
   else if g <? 2 * r then (q + 1) * g
   else if Z.even q then q * g else (q + 1) * g.
+
+(* float64(int64) for every int64 value: exact below 2^53, else rounded to 53 significant bits (nearest, ties
+   to even) = to the nearest multiple of 2^(e-52) for 2^e <= |x| < 2^(e+1). |x| = 2^63 is exact. Total on Z
+   (beyond int64 the spacing stays 1024). Today's UnixNano values (2^60..2^61) have spacing 256; deadlines that
+   wrapped negative and huge positive ones (2^62..2^63) have spacing 1024. *)
+Definition M53 : Z := 2 ^ 53.
+Definition f64 (x : Z) : Z :=
+  let a := Z.abs x in
+  if a <? M53 then x else Z.sgn x * f64r (2 ^ (Z.min (Z.log2 a) 62 - 52)) a.
